@@ -23,6 +23,9 @@ TRUSTED = [
     "Coq 8.16.1 kernel and vm_compute",
     "harness/c08.py: query text construction from the modifier stack, conversion of rdflib terms "
     "to (kind, content) by class / datatype / lexical form (never by rdflib __eq__/__hash__)",
+    "harness/c08.py expr_eval: exact integer/decimal/string evaluation of the aggregate ARGUMENT expressions "
+    "(-?v, +?v, ?v+k, ?v-k, FLOOR, CEIL, ABS, STRLEN, LCASE, UCASE) per input solution - conformance level: "
+    "expressions are not in the Coq model, their per-solution values enter the case as bindings of derived variables",
     "the base query `SELECT * WHERE {P}` and the query with modifiers see the same solution sequence "
     "of P (same Graph object, same process, no mutation in between)",
     "running the query three times (aggregation stage alone, without slice, complete) gives the same "
@@ -47,7 +50,9 @@ ASSUMPTIONS = [
 RULE = ("random graph over a tiny vocabulary with mixed object kinds (bnode, IRI, integer, decimal, string), one of "
         "five base patterns (with OPTIONAL so that variables are unbound in some rows; one that matches nothing), "
         "random stack of DISTINCT, ORDER BY with 1-3 ASC/DESC keys, LIMIT/OFFSET, projection, GROUP BY with 0-2 keys, "
-        "1-3 aggregates out of the seven with/without DISTINCT, HAVING; distinct by full case content; non-trivial = "
+        "1-3 aggregates out of the seven with/without DISTINCT, HAVING (aggregate or grouping key); 10 %: two aggregates "
+        "of one function over different argument expressions (+ one only in ORDER BY); 8 %: DISTINCT + ORDER BY on all "
+        "projected variables over value-equal literals of different datatype/lexical form; distinct by full case content; non-trivial = "
         "at least one modifier and a non-empty input or an aggregate")
 
 E = "http://e/"
